@@ -4431,13 +4431,26 @@ def unify_chunks(*args, **kwargs):
     ):
         return dict(zip(inds[0], arrays[0].chunks)), arrays
 
+    # The lengths every index takes among the inputs.  A dimension of length
+    # one is broadcast when another input has a different length for the same
+    # index; its own chunking (possibly with empty chunks, e.g. ``(0, 1, 0)``)
+    # then says nothing about the unified chunks and counts as ``(1,)``.
+    lengths: dict = {}
+    for a, ind in arginds:
+        if ind is not None:
+            for n, j in enumerate(ind):
+                lengths.setdefault(j, set()).add(a.shape[n])
+
     nameinds = []
     blockdim_dict = dict()
     max_parts = 0
     for a, ind in arginds:
         if ind is not None:
             nameinds.append((a.name, ind))
-            blockdim_dict[a.name] = a.chunks
+            blockdim_dict[a.name] = tuple(
+                (1,) if a.shape[n] == 1 and lengths[j] != {1} else c
+                for n, (c, j) in enumerate(zip(a.chunks, ind))
+            )
             max_parts = max(max_parts, a.npartitions)
         else:
             nameinds.append((a, ind))
